@@ -545,7 +545,8 @@ func (dc *ClientDnsConnection) TestDownstreamEncoder(trycodec enc.Encoder) error
 
 		for k := 0; k < len(util.DownloadCodecCheck); k++ {
 			if resp.Data[k] != util.DownloadCodecCheck[k] {
-				return errors.Wrapf(err, "reply cannot be matched, unreiable: %+v", err)
+				// err is nil here: wrapping it would report success for a corrupted reply
+				return errors.Errorf("reply cannot be matched at byte %d, unreliable", k)
 			}
 		}
 
